@@ -106,7 +106,7 @@ fn partials() -> Vec<Partial> {
         p("0.0.0-0", Some(0), Some(0), Some(0), vec![Id::N(0)]), p("1.0.0-alpha", Some(1), Some(0), Some(0), vec![a("alpha")]),
         p("2.0.0-rc.1", Some(2), Some(0), Some(0), vec![a("rc"), Id::N(1)]), p("0.0.0-beta", Some(0), Some(0), Some(0), vec![a("beta")]),
         p("1.x.3", Some(1), None, Some(3), vec![]), p("1.2.x-beta", Some(1), Some(2), None, vec![a("beta")]),
-        p("1.2.3-1", Some(1), Some(2), Some(3), vec![Id::N(1)]), p("1.2.*-0", Some(1), Some(2), None, vec![Id::N(0)]),
+        p("1.2.3-1", Some(1), Some(2), Some(3), vec![Id::N(1)]), p("1.x.3-beta", Some(1), None, Some(3), vec![a("beta")]), p("2.x.1-rc.1", Some(2), None, Some(1), vec![a("rc"), Id::N(1)]), p("1.2.*-0", Some(1), Some(2), None, vec![Id::N(0)]),
     ]
 }
 fn full(p: &Partial) -> K { K { ma: p.ma.unwrap_or(0), mi: p.mi.unwrap_or(0), pa: p.pa.unwrap_or(0), pre: p.pre.clone() } }
